@@ -209,8 +209,8 @@ def compact_as(ctx):
     ctx.expect(users == ["TypeGenerator::create_type_ir", "TypeGenerator::upcast_composite"], "C08.6", "compact-as/call-sites", "",
                "the configured CompactAs path is used by the two IR construction sites only", "compact_as_type_path is used by %s" % users)
     expect_fn(ctx, "C08.7", "compact-as/eligibility", "CompositeIRKind::could_derive_as_compact",
-              "TypePath::is_uint_up_to_u128(match(P0){CompositeIRKind::NoFields=>return false;CompositeIRKind::Named($)=>early{(slice::len(P0@CompositeIRKind::Named.0)!='1')=>return false}P0@CompositeIRKind::Named.0['0'].1;"
-              "CompositeIRKind::Unnamed($)=>early{(slice::len(P0@CompositeIRKind::Unnamed.0)!='1')=>return false}P0@CompositeIRKind::Unnamed.0['0']}.type_path)",
+              "((let CompositeIRKind::Named($)=P0&&((slice::len(P0@CompositeIRKind::Named.0)=='1')&&TypePath::is_uint_up_to_u128(P0@CompositeIRKind::Named.0['0'].1.type_path)))||"
+              "(let CompositeIRKind::Unnamed($)=P0&&((slice::len(P0@CompositeIRKind::Unnamed.0)=='1')&&TypePath::is_uint_up_to_u128(P0@CompositeIRKind::Unnamed.0['0'].type_path))))",
               "eligible iff exactly one field (named or unnamed) and that field's type is an unsigned integer up to 128 bits", "scale_typegen")
     fn = q.fn1(P, "TypePath::is_uint_up_to_u128", "scale_typegen")
     if fn is not None:
